@@ -14,7 +14,12 @@ pk=$(grep -m1 '^package ' "$d/demo_test.go" | awk '{print $2}')
 case "$pk" in xxh32) demodir=internal/xxh32;; lz4block) demodir=internal/lz4block;; lz4stream) demodir=internal/lz4stream;; *) demodir=.;; esac
 runpat="^($(grep -o '^func Test[A-Za-z0-9_]*' "$d/demo_test.go" | sed 's/func //' | paste -sd'|'))\$"
 pkgs=". ./internal/..."
+if [ -f "$d/run.sh" ]; then
+  # script-style demonstration (expects to live in <worktree>/mutant/<k>/)
+  run_demo() { mkdir -p mutant/k9; cp -r "$d"/run.sh "$d"/demo mutant/k9/ 2>/dev/null; sh mutant/k9/run.sh >"$1" 2>&1; rc=$?; rm -rf mutant; return $rc; }
+else
 run_demo() { cp "$d/demo_test.go" "$demodir/zz_seeded_demo_test.go"; timeout 900 go test $tags -vet=off -count=1 -run "$runpat" "./$demodir" >"$1" 2>&1; rc=$?; rm -f "$demodir/zz_seeded_demo_test.go"; return $rc; }
+fi
 suite() { timeout 1500 go test -json -vet=off -count=1 $pkgs 2>/dev/null | python3 -c '
 import sys,json
 f=set()
